@@ -7,9 +7,10 @@ from vlib import tlc
 from vlib.common import Broken
 
 
-def scripts(ctx, deep=False, drop=False):
+def scripts(ctx, deep=False, drop=False, free=False):
     """Returns (TlcResult of the exhaustive run, [script files]).  drop: also the scripts in which the connection is lost at some
-    point of the call (a proxy between client and server cuts it)."""
+    point of the call (a proxy between client and server cuts it).  free: also the scripts in which a second goroutine frees
+    a streaming call while the first one waits in Response."""
     r = tlc.run_tlc(ctx.scratch("svccall"), "SvcCall.tla", "SvcCall.cfg", timeout=1800, workers=8, out_name="svccall.out", heap="4g")
     tlc.require_ok(r, "SvcCall")
     rf = tlc.run_tlc(ctx.scratch("svccall-faulty"), "SvcCall.tla", "SvcCall_faulty.cfg", timeout=600, workers=2, out_name="svcf.out", heap="2g")
@@ -20,6 +21,10 @@ def scripts(ctx, deep=False, drop=False):
         rd = tlc.run_tlc(ctx.scratch("svccall-drop"), "SvcCall.tla", "SvcCall_drop.cfg", timeout=1800, workers=8, out_name="svcdrop.out", heap="6g")
         tlc.require_ok(rd, "SvcCall (lost connection)")
         files.append(rd.outfile)
+    if free:
+        rf2 = tlc.run_tlc(ctx.scratch("svccall-free"), "SvcCall.tla", "SvcCall_free.cfg", timeout=1800, workers=8, out_name="svcfree.out", heap="6g")
+        tlc.require_ok(rf2, "SvcCall (free while waiting)")
+        files.append(rf2.outfile)
     if deep:
         rs = tlc.run_tlc(ctx.scratch("svccall-sim"), "SvcCall.tla", "SvcCall_sim.cfg", timeout=1800, workers=1, out_name="svcsim.out", heap="4g",
                          simulate="num=3000", depth=40, seed=ctx.seed)
